@@ -3,6 +3,7 @@
 package sanitize
 
 import (
+	"bytes"
 	"encoding/json"
 	"fmt"
 	"math/rand"
@@ -87,6 +88,8 @@ func filler(rnd *rand.Rand, n int, esc string) string {
 			b.WriteString("\x01\x02\n\t\x1f")
 		case "multibyte":
 			b.WriteString("漢字é😀")
+		case "html":
+			b.WriteString("<init>&<T>")
 		default:
 			b.WriteString("abcdefghij")
 		}
@@ -153,7 +156,16 @@ func buildCause(rnd *rand.Rand, c *Case) ([]byte, map[string]interface{}) {
 	var raw []byte
 	switch c.C.JSON {
 	case "object":
-		raw, _ = json.Marshal(doc)
+		if c.C.Esc == "html" {
+			// the runtime's encoder leaves <, > and & as they are: the document grows when the emulator re-encodes it
+			var buf bytes.Buffer
+			enc := json.NewEncoder(&buf)
+			enc.SetEscapeHTML(false)
+			_ = enc.Encode(doc)
+			raw = bytes.TrimSpace(buf.Bytes())
+		} else {
+			raw, _ = json.Marshal(doc)
+		}
 	case "array":
 		raw = []byte(`["message","x"]`)
 	case "string":
